@@ -391,6 +391,153 @@ func init() {
 		return i.mkval(ok, types.Bool)
 	}
 
+	// ---- JWS / parser contract stubs (symbolic runs only; native replays use the real thing)
+	intrinsics[v+"BindSignature"] = func(fr *frame, args []value) value {
+		r := fr.i.run
+		if r.ghostSig == nil {
+			r.ghostSig = map[*value]ghostSig{}
+		}
+		sig := args[0].(iface).v.(*value)
+		key, _ := args[1].(iface).v.(*value)
+		pay := args[2].(iface).v.(*value)
+		r.ghostSig[sig] = ghostSig{key, pay}
+		return nil
+	}
+	intrinsics[v+"BindParsed"] = func(fr *frame, args []value) value {
+		fr.i.run.ghostParsed = args[0].(iface).v
+		return nil
+	}
+	intrinsics[v+"SetStub"] = func(fr *frame, args []value) value {
+		r := fr.i.run
+		if r.ghostFlags == nil {
+			r.ghostFlags = map[string]value{}
+		}
+		v := args[1]
+		if iv, ok := v.(iface); ok {
+			v = iv.v
+		}
+		r.ghostFlags[args[0].(string)] = v
+		return nil
+	}
+	copyInto := func(fr *frame, dst value, src *value) {
+		d, ok := dst.(iface)
+		if !ok {
+			return
+		}
+		dp, ok := d.v.(*value)
+		if !ok || dp == nil {
+			return
+		}
+		ss, ok1 := (*src).(structure)
+		ds, ok2 := (*dp).(structure)
+		if !ok1 || !ok2 || len(ss) != len(ds) {
+			return // payload of another shape: JSON unmarshalling finds no matching members
+		}
+		for k := range ss {
+			fr.i.logStore(&ds[k])
+			ds[k] = ss[k]
+		}
+	}
+	intrinsics["(*github.com/invopop/gobl/dsig.Signature).VerifyPayload"] = func(fr *frame, args []value) value {
+		sig := args[0].(*value)
+		if sig == nil {
+			panic(runtimeError("invalid memory address or nil pointer dereference"))
+		}
+		g, ok := fr.i.run.ghostSig[sig]
+		if !ok {
+			// a signature entry without a JWS inside (not produced by signing)
+			if st, isSt := (*sig).(structure); isSt && st[0] == (*value)(nil) {
+				panic(runtimeError("invalid memory address or nil pointer dereference"))
+			}
+			unsup("VerifyPayload on a signature that was not bound by the harness")
+		}
+		key, _ := args[1].(*value)
+		if key == nil || key != g.key {
+			return fr.i.opaqueError("go-jose/go-jose: error in cryptographic primitive", iface{})
+		}
+		copyInto(fr, args[2], g.payload)
+		return iface{}
+	}
+	intrinsics["(*github.com/invopop/gobl/dsig.Signature).UnsafePayload"] = func(fr *frame, args []value) value {
+		sig := args[0].(*value)
+		if sig == nil {
+			panic(runtimeError("invalid memory address or nil pointer dereference"))
+		}
+		g, ok := fr.i.run.ghostSig[sig]
+		if !ok {
+			if st, isSt := (*sig).(structure); isSt && st[0] == (*value)(nil) {
+				panic(runtimeError("invalid memory address or nil pointer dereference"))
+			}
+			unsup("UnsafePayload on a signature that was not bound by the harness")
+		}
+		copyInto(fr, args[1], g.payload)
+		return iface{}
+	}
+	intrinsics["github.com/invopop/yaml.Unmarshal"] = func(fr *frame, args []value) value {
+		r := fr.i.run
+		if r.ghostParsed == nil {
+			unsup("yaml.Unmarshal without a bound parse result")
+		}
+		src, ok := r.ghostParsed.(*value)
+		if !ok {
+			unsup("bound parse result is not a pointer")
+		}
+		copyInto(fr, args[1], src)
+		return iface{}
+	}
+	intrinsics["io.ReadAll"] = func(fr *frame, args []value) value {
+		if fr.i.run.ghostParsed == nil {
+			return notHandled{}
+		}
+		return tuple{[]value{uint8('{'), uint8('}')}, iface{}}
+	}
+	intrinsics["(*github.com/invopop/gobl.Envelope).Validate"] = func(fr *frame, args []value) value {
+		r := fr.i.run
+		if f, ok := r.ghostFlags["envelope.Validate"]; ok {
+			if b, isB := f.(bool); isB && b {
+				return iface{}
+			}
+			return fr.i.opaqueError("validation", iface{})
+		}
+		return notHandled{}
+	}
+
+	// errors.Is without reflectlite: follow Unwrap() error chains, compare comparable dynamic types
+	intrinsics["errors.Is"] = func(fr *frame, args []value) value {
+		err, ok1 := args[0].(iface)
+		target, ok2 := args[1].(iface)
+		if !ok1 || !ok2 || err.t == nil || target.t == nil {
+			return ok1 && ok2 && err.t == nil && target.t == nil
+		}
+		for depth := 0; depth < 16 && err.t != nil; depth++ {
+			if types.Identical(err.t, target.t) && types.Comparable(err.t) {
+				if fr.i.valueEq(err.t, err.v, target.v) {
+					return true
+				}
+			}
+			ms := fr.i.prog.MethodSets.MethodSet(err.t)
+			var unwrap *ssa.Function
+			for k := 0; k < ms.Len(); k++ {
+				if sel := ms.At(k); sel.Obj().Name() == "Unwrap" {
+					if sig, ok := sel.Type().(*types.Signature); ok && sig.Params().Len() == 0 && sig.Results().Len() == 1 {
+						if _, isSlice := sig.Results().At(0).Type().Underlying().(*types.Slice); !isSlice {
+							unwrap = fr.i.prog.MethodValue(sel)
+						}
+					}
+				}
+			}
+			if unwrap == nil {
+				return false
+			}
+			next, ok := call(fr.i, fr, 0, unwrap, []value{err.v}).(iface)
+			if !ok {
+				return false
+			}
+			err = next
+		}
+		return false
+	}
+
 	// errors / fmt: opaque error objects
 	intrinsics["fmt.Errorf"] = func(fr *frame, args []value) value {
 		var wrapped value = iface{}
